@@ -5,7 +5,8 @@
    the next boundary, and gravity and scale height there: these are exactly two consecutive rows of the model's
    hydrostatic recurrence `layers`. *)
 From Coq Require Import Reals Lra List.
-From TV Require Import Num ListNum Model_C11.
+From Coq Require Import Sorted Lia.
+From TV Require Import Num ListNum Model_C11 Proofs_C11.
 Import ListNotations.
 Local Open Scope R_scope.
 (* GENERATED *)
@@ -72,4 +73,28 @@ Proof.
           (@layers R RTNum (G * M) Rp k (z + -1 * (k * t / (m * (G * M / ((Rp + z) * (Rp + z))))) * ln (P1 / Pj)) P1 Prest (t2 :: Ts') (m2 :: ms'))
       end.
       all: first [reflexivity | (rewrite <- IH; reflexivity)].
+Qed.
+
+
+(* Consequently, for ANY strictly decreasing positive level pressures and positive temperatures and molecular weights,
+   the loop as the code runs it yields one row per layer and strictly increasing altitude boundaries starting at 0:
+   C11_hydrostatic, C11_one_row_per_layer and C11_altitudes_increase carried over to the regenerated source. *)
+Lemma tie_code_altitudes_increase : forall (G M Rp k : R), 0 < G * M -> 0 < Rp -> 0 < k ->
+  forall (t m : R) (Ts ms : list R) (P0 : R) (Prest : list R),
+  decreasing_pos P0 Prest -> length (t :: Ts) = length Prest -> length (m :: ms) = length Prest ->
+  Forall (fun x => 0 < x) (t :: Ts) -> Forall (fun x => 0 < x) (m :: ms) ->
+  let o := altitude_loop (gen_scale_step (gen_gravity_at_height G M Rp) k)
+                         0 (k * t / (m * (G * M / ((Rp + 0) * (Rp + 0))))) (G * M / ((Rp + 0) * (Rp + 0))) P0 Prest Ts ms in
+  length (fst o) = length Prest /\
+  StronglySorted Rlt (@altitude_boundaries R o) /\ hd 0 (@altitude_boundaries R o) = 0.
+Proof.
+  intros G M Rp k HGM HRp Hk t m Ts ms P0 Prest Hdec HlT Hlm HT Hm o.
+  assert (Ho : o = @layers R RTNum (G * M) Rp k 0 P0 Prest (t :: Ts) (m :: ms)).
+  { unfold o. apply tie_altitude_loop; cbn [length] in *; lia. }
+  pose proof (scale_properties_hydrostatic (G * M) Rp k HGM HRp Hk (t :: Ts) (m :: ms) P0 Prest Hdec HlT Hlm HT Hm) as Hh.
+  cbn zeta in Hh. unfold scale_properties in Hh.
+  assert (Hh' : hydro_ok (G * M) Rp k 0 P0 Prest (t :: Ts) (m :: ms) (fst o) (snd o)) by (rewrite Ho; exact Hh).
+  clear Hh Ho. destruct o as [rows zf]. cbn [fst snd] in Hh'. rename Hh' into Hh.
+  split; [exact (hydro_ok_length _ _ _ _ _ _ _ _ _ _ Hh)|].
+  destruct (hydro_ok_altitudes _ _ _ _ _ _ _ _ _ _ Hh) as (Hs & Hhd & _). split; assumption.
 Qed.
